@@ -205,4 +205,47 @@ def computeSliceParams (length : Int) (parts : List SliceParam) : Except String 
             let stop := (capSlice length (parts.getD 1 default).N step)
             .ok [start, stop, step]
 
+/-- the two loops of `slice` below are the pattern translation of the Go source -/
+def loopsTranslated : Bool := false
+
+def sliceLoop1 {α : Type} (xs : List α) (start stop step : Int) : Nat → Int → Res (List α)
+  | 0, i => if (decide (i < stop)) = true then Slice.hang else .ok []
+  | fuel + 1, i =>
+    if (decide (i < stop)) = true then
+      match Slice.getIdx xs i with
+      | none => Slice.idxPanic
+      | some x =>
+        if (decide (step ≥ (wrap64 (stop - i)))) = true then .ok [x]
+        else
+          let i := (wrap64 (i + step))
+          match sliceLoop1 xs start stop step fuel i with
+          | .ok r => .ok (x :: r)
+          | e => e
+    else .ok []
+
+def sliceLoop2 {α : Type} (xs : List α) (start stop step : Int) : Nat → Int → Res (List α)
+  | 0, i => if (decide (i > stop)) = true then Slice.hang else .ok []
+  | fuel + 1, i =>
+    if (decide (i > stop)) = true then
+      match Slice.getIdx xs i with
+      | none => Slice.idxPanic
+      | some x =>
+        if (decide (step ≤ (wrap64 (stop - i)))) = true then .ok [x]
+        else
+          let i := (wrap64 (i + step))
+          match sliceLoop2 xs start stop step fuel i with
+          | .ok r => .ok (x :: r)
+          | e => e
+    else .ok []
+
+def slice {α : Type} (fuel : Nat) (xs : List α) (parts : List SliceParam) : Res (List α) :=
+  match computeSliceParams (xs.length : Int) parts with
+  | .error msg => .err (.other msg)
+  | .ok computed =>
+    match computed[0]?, computed[1]?, computed[2]? with
+    | some start, some stop, some step =>
+      if (decide (step > (0 : Int))) = true then sliceLoop1 xs start stop step fuel start
+      else sliceLoop2 xs start stop step fuel start
+    | _, _, _ => .panic "util.go: computed[k] index out of range"
+
 end Jmes.GenSlice
